@@ -201,7 +201,8 @@ OutViol(ev, o, ln) ==
     LET bytes == Expand(ev.bytes)
         nb    == Len(o.blocks)
     IN
-    IF ~ev.raw_ok THEN <<[l |-> ln, prop |-> "C14,C02", what |-> "closed compressed output is not one complete stream"]>>
+    IF ~ev.raw_ok THEN <<[l |-> ln, prop |-> IF ev.why = "rot" THEN "C14,C02,C13" ELSE "C14,C02",    \* closed by a rotation: not a complete file by itself (C13)
+                            what |-> "closed compressed output is not one complete stream"]>>
     ELSE IF nb = 0 THEN
         (IF Len(bytes) = 0 THEN <<>>
          ELSE <<[l |-> ln, prop |-> "C02,C13", what |-> "an output to which no block was written received data", got |-> Len(bytes)]>>)
@@ -211,15 +212,20 @@ OutViol(ev, o, ln) ==
             ELSE <<[l |-> ln, prop |-> "C10", what |-> "sum of reported byte counts differs from the uncompressed size of an output to which no block was written",
                     reported |-> o.rep, size |-> Len(bytes)]>>)
     ELSE
-    LET P == Parse(bytes) IN
+    LET P == Parse(bytes)
+        ledger == o.rep + (IF o.why = "destroy" THEN 1 ELSE 0)
+        \* the ledger is a matter of sizes only: it is evaluated whether or not the content can be parsed
+        LedgerViol == IF ledger = Len(bytes) THEN <<>>
+                      ELSE <<[l |-> ln, prop |-> "C10", what |-> "sum of reported byte counts differs from the uncompressed size of the output",
+                              reported |-> ledger, size |-> Len(bytes)]>>
+    IN
     IF ~P.ok THEN <<[l |-> ln, prop |-> "C02,C13,C01,C09", what |-> "closed output is not exactly one well-formed CBOR data item",
-                     size |-> Len(bytes)]>>
+                     size |-> Len(bytes)]>> \o LedgerViol
     ELSE LET errs == FileErrs(P.n) IN
-    IF errs # {} THEN <<[l |-> ln, prop |-> "C02,C13,C01,C09", what |-> "closed output violates the RFC 8618 schema", errs |-> errs]>>
+    IF errs # {} THEN <<[l |-> ln, prop |-> "C02,C13,C01,C09", what |-> "closed output violates the RFC 8618 schema", errs |-> errs]>> \o LedgerViol
     ELSE
     LET D    == DenFile(P.n)
         expP == ExpPreamble(o)
-        ledger == o.rep + (IF o.why = "destroy" THEN 1 ELSE 0)
     IN
       (IF D.preamble = expP THEN <<>>
        ELSE <<[l |-> ln, prop |-> "C09,C04,C13", what |-> "preamble in the file differs from the preamble supplied",
@@ -227,9 +233,7 @@ OutViol(ev, o, ln) ==
       \o (IF Len(D.blocks) # nb
           THEN <<[l |-> ln, prop |-> "C01,C12,C13", what |-> "number of blocks in the output differs", got |-> Len(D.blocks), want |-> nb]>>
           ELSE BlocksViol(D.blocks, o.blocks, o.bps, "independent RFC 8618 reading", ln, 1) \o TreesViol(P.n, D, o.blocks, ln, 1))
-      \o (IF ledger = Len(bytes) THEN <<>>
-          ELSE <<[l |-> ln, prop |-> "C10", what |-> "sum of reported byte counts differs from the uncompressed size of the output",
-                  reported |-> ledger, size |-> Len(bytes)]>>)
+      \o LedgerViol
       \o (IF "rd" \notin DOMAIN ev THEN <<>>
           ELSE LET rd == ev.rd IN
                IF rd.fin # "eof" THEN
@@ -248,7 +252,8 @@ OutViol(ev, o, ln) ==
 (* what can be said about a closed output without the model (still checked when the model lost track of the state) *)
 FormViol(ev, ln) ==
     LET bytes == Expand(ev.bytes) IN
-    IF ~ev.raw_ok THEN <<[l |-> ln, prop |-> "C14,C02", what |-> "closed compressed output is not one complete stream"]>>
+    IF ~ev.raw_ok THEN <<[l |-> ln, prop |-> IF ev.why = "rot" THEN "C14,C02,C13" ELSE "C14,C02",    \* closed by a rotation: not a complete file by itself (C13)
+                            what |-> "closed compressed output is not one complete stream"]>>
     ELSE IF Len(bytes) = 0 THEN <<>>
     ELSE LET P == Parse(bytes) IN
          IF ~P.ok THEN <<[l |-> ln, prop |-> "C02,C13,C01,C09", what |-> "closed output is not exactly one well-formed CBOR data item",
